@@ -43,8 +43,8 @@ def eq(ctx, rule, f, a, b, what, node=None):
 def pair_sequential(ctx, R="C07.pair"):
     a, c = ctx.fn("constraint:Sequential.apply"), ctx.fn("constraint:Sequential.potential_sample_conforms")
     ra, rc = Roles(a), Roles(c)
-    la = _one(ctx, ra.while_loops(), "while loop", a)
-    lc = _one(ctx, rc.while_loops(), "while loop", c)
+    la = _one(ctx, [l for l in ra.counting_loops() if "get_variable" in ast.unparse(l["stmt"])], "trial loop", a)
+    lc = _one(ctx, [l for l in rc.counting_loops() if "sample[" in ast.unparse(l["stmt"])], "trial loop", c)
     eq(ctx, R, c, la["start"], lc["start"], "Sequential loop start", lc["stmt"])
     eq(ctx, R, c, la["test"], lc["test"], "Sequential loop bound", lc["stmt"])
     eq(ctx, R, c, la["stride"], lc["stride"], "Sequential loop stride", lc["stmt"])
